@@ -13,7 +13,10 @@ CTX_H = 'libgalois/include/galois/runtime/Context.h'
 MF_H = 'libgalois/include/galois/MethodFlags.h'
 UNITS = []
 C06U = {u.name: u for u in C06.UNITS}
-IMPORTED = [C06U[n] for n in ('PtrLock_try_lock', 'PtrLock_setValue', 'PtrLock_getValue', 'PtrLock_unlock_and_clear', 'PtrLock_is_locked')]
+PTRLOCK_OPS = [n for n in ('PtrLock_lock', 'PtrLock_try_lock', 'PtrLock_unlock', 'PtrLock_unlock_and_clear', 'PtrLock_unlock_and_set', 'PtrLock_setValue', 'PtrLock_getValue', 'PtrLock_CAS', 'PtrLock_is_locked') if n in C06U]
+IMPORTED = [C06U[n] for n in PTRLOCK_OPS]
+# every call on a lockable's owner word goes to the PtrLock CONTRACT of that name (C06), whichever method the code uses
+OWNER_OPS = [rx(r'(\w+)->owner\.(\w+)\(\)', r'PtrLock_\2(&\1->owner)', 0), rx(r'(\w+)->owner\.(\w+)\(([^()]+)\)', r'PtrLock_\2(&\1->owner, \3)', 0)]
 
 CP = '''
 struct Lockable { struct PtrLock owner; struct Lockable* next; };
@@ -30,7 +33,7 @@ UNITS.append(Unit(
     name='LMB_getOwner', src=CTX_H, within=r'class LockManagerBase\b', anchor=r'inline static LockManagerBase\* getOwner\(Lockable\* lockable\)',
     proto='void* LMB_getOwner(struct Lockable* lockable)',
     contract='__CPROVER_requires(__CPROVER_is_fresh(lockable, sizeof(*lockable)))\n__CPROVER_ensures((uintptr_t)__CPROVER_return_value == (g_last_read & ~(uintptr_t)1) && (g_held ==> (lockable->owner._lock.v == __CPROVER_old(lockable->owner._lock.v) && g_last_read == lockable->owner._lock.v)))\n__CPROVER_assigns(lockable->owner._lock.v, g_last_read, g_last_load_order)',
-    prelude=[C06.PLP, CP], uses=['PtrLock_getValue'], lower=[rx(r'lockable->owner\.getValue\(\)', 'PtrLock_getValue(&lockable->owner)', 1, 1), rx(r'!= nullptr', '!= 0', 1, 1)],
+    prelude=[C06.PLP, CP], uses=PTRLOCK_OPS, lower=OWNER_OPS + [rx(r'!= nullptr', '!= 0', 1, 1)],
     no_flags=['--conversion-check'], says='getOwner reads the pointer bits of the owner word and writes nothing'))
 UNITS.append(Unit(
     name='LMB_tryAcquire', src=CTX_C, anchor=r'galois::runtime::LockManagerBase::tryAcquire\(', proto='int LMB_tryAcquire(struct Ctx* self, struct Lockable* lockable)',
@@ -40,8 +43,8 @@ __CPROVER_ensures(__CPROVER_return_value == NEW_OWNER ==> (g_acq_ok && g_lin_new
 __CPROVER_ensures(__CPROVER_return_value == ALREADY_OWNER ==> (g_last_read & ~(uintptr_t)1) == (uintptr_t)self)
 __CPROVER_ensures(__CPROVER_return_value == FAIL || __CPROVER_return_value == NEW_OWNER || __CPROVER_return_value == ALREADY_OWNER)
 ''' + LASG,
-    prelude=[C06.PLP, CP], pre_extract=ENUMS, uses=['PtrLock_try_lock', 'PtrLock_setValue', 'LMB_getOwner'],
-    lower=[rx(r'lockable->owner\.try_lock\(\)', 'PtrLock_try_lock(&lockable->owner)', 1, 1), rx(r'lockable->owner\.setValue\(', 'PtrLock_setValue(&lockable->owner, ', 1, 1),
+    prelude=[C06.PLP, CP], pre_extract=ENUMS, uses=PTRLOCK_OPS + ['LMB_getOwner'],
+    lower=OWNER_OPS + [
            rx(r'(?<![\w.>])getOwner\(lockable\)', 'LMB_getOwner(lockable)', 1, 1), rx(r'(?<![\w])this(?![\w])', '((void*)self)', 2), casts(0)],
     no_flags=['--conversion-check'],
     says='tryAcquire: NEW_OWNER iff THIS call took the owner bit (PtrLock::try_lock, an acquire RMW on a word it observed free) and then the word reads (this | owned); ALREADY_OWNER only if the word it read carries this context; FAIL otherwise; the word is never written in a way the lock protocol forbids -- two contexts never own the same lockable (given PtrLock\'s exclusion, C06)'))
@@ -69,9 +72,9 @@ UNITS.append(Unit(
     contract='''__CPROVER_requires(__CPROVER_is_fresh(self, sizeof(*self)) && __CPROVER_is_fresh(lockable, sizeof(*lockable)) && g_held && !g_bad_write && lockable->owner._lock.v == ((uintptr_t)self | 1) && lockable->next == 0)
 __CPROVER_ensures(!g_held && g_rel_ok && !g_bad_write && g_lin_new == 0)
 ''' + LASG,
-    prelude=[C06.PLP, CP], uses=['PtrLock_unlock_and_clear', 'LMB_getOwner'],
+    prelude=[C06.PLP, CP], uses=PTRLOCK_OPS + ['LMB_getOwner'],
     lower=[members(['customAcquire'], minimum=1), rx(r'(?<![\w.>])getOwner\(lockable\)', 'LMB_getOwner(lockable)', 1, 1), rx(r'(?<![\w])this(?![\w])', '((void*)self)', 1), casts(0),
-           rx(r'lockable->owner\.unlock_and_clear\(\)', 'PtrLock_unlock_and_clear(&lockable->owner)', 1, 1)],
+           ] + OWNER_OPS,
     no_flags=['--conversion-check'],
     says='release: the owner publishes an unowned, null word with a store of order >= release (the code\'s assertions "I am the owner" and "not in a list" hold); this is the hand-over edge of a lockable to the next iteration'))
 
